@@ -34,7 +34,8 @@ def setup(prop, repo):
 def _child_run(run_seed, ops, opts):
     mod, S = _ctx["mod"], _ctx["S"]
     cfg = None
-    boot.install_clock(1.7e9 + (run_seed % 100000) * 86400.0)      # simulated time, from the run seed
+    # simulated time, from the run seed; in a third of the runs the clock stands still (all calls within "one second")
+    boot.install_clock(1.7e9 + (run_seed % 100000) * 86400.0, frozen=(run_seed // 7) % 3 == 0)
     import warnings
     warnings.simplefilter("ignore")
     opts = dict(opts)
